@@ -225,6 +225,9 @@ var c16MethodValues = map[*ast.Ident]ast.Expr{}
 // that is assigned exactly once from a function name or a method value.
 func c16FnOK(f *flow.Func, call *ast.CallExpr) (*types.Func, bool) {
 	if fo, ok := f.Callee(call).(*types.Func); ok {
+		if impl := c16SingleImpl(f, fo); impl != nil {
+			return impl, true
+		}
 		return fo, true
 	}
 	id, ok := ast.Unparen(call.Fun).(*ast.Ident)
@@ -508,23 +511,72 @@ func c16SetSession(e *c16Env) {
 			gets = append(gets, call)
 		}
 	}
-	if !c.RequireCount("R-C16-1", "sessMgr.get call sites in setSession", len(gets), 1) {
-		return
-	}
 	var prevID *ast.Ident
-	ast.Inspect(f.Body, func(n ast.Node) bool {
-		if as, ok := n.(*ast.AssignStmt); ok && len(as.Lhs) == 1 && len(as.Rhs) == 1 && ast.Unparen(as.Rhs[0]) == gets[0] {
-			prevID, _ = as.Lhs[0].(*ast.Ident)
+	var prevParam types.Object // the previous session handed in by the caller
+	if len(gets) == 0 {
+		// the lookup was moved to the caller: the chooser takes the previous session as a parameter,
+		// and every caller must pass the manager's session of the connecting client id
+		fd, _ := f.Node.(*ast.FuncDecl)
+		if fd != nil {
+			prevID = c16SessionParam(f, fd)
 		}
-		return true
-	})
+		if prevID == nil {
+			c.RequireCount("R-C16-1", "sessMgr.get call sites in setSession", 0, 1)
+			return
+		}
+		prevParam = f.Info.Defs[prevID]
+		idx, i := -1, 0
+		for _, fld := range fd.Type.Params.List {
+			for _, nm := range fld.Names {
+				if nm == prevID {
+					idx = i
+				}
+				i++
+			}
+		}
+		fed, sitesN := true, 0
+		var at ast.Node = f.Body
+		for _, d := range e.decls {
+			g := funcOf(e.pkg, d)
+			for _, call := range calls(d.Body, true) {
+				if !e.callTo(g, call, f) || idx >= len(call.Args) {
+					continue
+				}
+				sitesN++
+				arg := ast.Unparen(call.Args[idx])
+				if o := c16Obj(g, arg); o != nil {
+					if rhs := c16DefRHS(g, o); len(rhs) == 1 {
+						arg = ast.Unparen(rhs[0])
+					}
+				}
+				gc, ok := arg.(*ast.CallExpr)
+				if !ok || !e.callTo(g, gc, getF) || len(gc.Args) != 1 || !e.isCid(g, gc.Args[0], 0) {
+					fed, at = false, call
+				}
+			}
+		}
+		if !c.RequireCount("R-C16-1", "callers handing the previous session to the chooser", sitesN, 1) {
+			return
+		}
+		c.Check(fed, "R-C16-1", cons+"|previous session is looked up by the connecting client id", pos(c, at),
+			"every caller passes sessMgr.get(<client id of the connection>) as the previous session", "a caller does not pass the session manager's session of the connecting client id as the previous session: a reconnecting client would get somebody else's (or no) session")
+	} else {
+		ast.Inspect(f.Body, func(n ast.Node) bool {
+			if as, ok := n.(*ast.AssignStmt); ok && len(as.Lhs) == 1 && len(as.Rhs) == 1 && ast.Unparen(as.Rhs[0]) == gets[0] {
+				prevID, _ = as.Lhs[0].(*ast.Ident)
+			}
+			return true
+		})
+	}
 	prevObj := c16Obj(f, prevID)
 	if prevObj == nil {
-		c.Undecide("R-C16-1", cons+"|previous session", pos(c, gets[0]), "the result of sessMgr.get is not assigned to a variable")
+		c.Undecide("R-C16-1", cons+"|previous session", pos(c, f.Body), "the result of sessMgr.get is not assigned to a variable")
 		return
 	}
-	c.Check(len(gets[0].Args) == 1 && e.isCid(f, gets[0].Args[0], 0), "R-C16-1", cons+"|previous session is looked up by the connecting client id", pos(c, gets[0]),
-		"sessMgr.get(<client id of the connection>)", "the previous session is not looked up under the connecting client's id: a reconnecting client would get somebody else's (or no) session")
+	if len(gets) > 0 {
+		c.Check(len(gets[0].Args) == 1 && e.isCid(f, gets[0].Args[0], 0), "R-C16-1", cons+"|previous session is looked up by the connecting client id", pos(c, gets[0]),
+			"sessMgr.get(<client id of the connection>)", "the previous session is not looked up under the connecting client's id: a reconnecting client would get somebody else's (or no) session")
+	}
 
 	// the previous session and the parameters it is bound to in the helpers the chooser calls
 	// (predicate `resumes(connect, prev)`, `discard(prev, id)` ...)
@@ -668,6 +720,9 @@ func c16SetSession(e *c16Env) {
 		if k := provKey(x); k != "" {
 			if v := st.Get(k); v != flow.Unknown {
 				return v
+			}
+			if prevParam != nil && c16Obj(f, x) == prevParam {
+				return flow.True // the parameter still holds what the caller looked up
 			}
 			if isNewExpr(x) { // single-assignment local never seen assigned on this path
 				return flow.False
@@ -1654,4 +1709,49 @@ func (w *c16Walker) runsParam(d *ast.FuncDecl, idx int) (always, underLock bool)
 		}
 	}
 	return always && n > 0, underLock
+}
+
+var c16ImplMemo = map[*types.Func]*types.Func{}
+
+// c16SingleImpl: fo is a method of an interface declared in the analysed package that exactly one
+// named type of the package implements (an unexported interface put in front of a dependency):
+// the call is resolved to that type's method. nil otherwise.
+func c16SingleImpl(f *flow.Func, fo *types.Func) *types.Func {
+	if impl, ok := c16ImplMemo[fo]; ok {
+		return impl
+	}
+	c16ImplMemo[fo] = nil
+	sig, ok := fo.Type().(*types.Signature)
+	if !ok || sig.Recv() == nil || fo.Pkg() != f.Pkg.Types {
+		return nil
+	}
+	it, ok := sig.Recv().Type().Underlying().(*types.Interface)
+	if !ok {
+		return nil
+	}
+	// the named interface(s) of the package that declare or embed this method
+	scope := f.Pkg.Types.Scope()
+	var impls []types.Type
+	for _, name := range scope.Names() {
+		tn, ok := scope.Lookup(name).(*types.TypeName)
+		if !ok || tn.IsAlias() {
+			continue
+		}
+		if types.IsInterface(tn.Type()) {
+			continue
+		}
+		pt := types.NewPointer(tn.Type())
+		if types.Implements(pt, it) || types.Implements(tn.Type(), it) {
+			impls = append(impls, pt)
+		}
+	}
+	if len(impls) != 1 {
+		return nil
+	}
+	obj, _, _ := types.LookupFieldOrMethod(impls[0], true, f.Pkg.Types, fo.Name())
+	if m, ok := obj.(*types.Func); ok {
+		c16ImplMemo[fo] = m
+		return m
+	}
+	return nil
 }
